@@ -43,15 +43,22 @@ func hGets(N, L int, kinds []base.InternalKeyKind, snapshotOnly bool) {
 
 func VerifHarness_C01_Gets() { hGets(2, 2, hPointAndRangeKinds, false) }
 
-func VerifHarness_C01_Gets3_Thorough() { hGets(3, 2, hPointAndRangeKinds, false) }
+func VerifHarness_C01_Gets3_Thorough() {
+	hDBLean = true
+	hGets(3, 2, hPointAndRangeKinds, false)
+}
 
 func VerifHarness_C01_GetsCompactedKinds() { hGets(2, 2, hCompactedKinds, false) }
 
 func VerifHarness_C01_Gets3Levels_Thorough() {
-	hGets(3, 3, []base.InternalKeyKind{hKSet, hKDel, hKMerge, hKRDel}, false)
+	hDBLean = true
+	hGets(2, 3, []base.InternalKeyKind{hKSet, hKDel, hKMerge, hKRDel}, false)
 }
 
 // Snapshot.Get: reads at the snapshot's sequence number while later writes are visible in the DB
 func VerifHarness_C03_SnapshotGet() { hGets(2, 2, hPointAndRangeKinds, true) }
 
-func VerifHarness_C03_SnapshotGet3_Thorough() { hGets(3, 2, hPointAndRangeKinds, true) }
+func VerifHarness_C03_SnapshotGet3_Thorough() {
+	hDBLean = true
+	hGets(3, 2, hPointAndRangeKinds, true)
+}
